@@ -33,7 +33,10 @@ abbrev ConfigTag := Nat
 is (`self.modified` is assigned before `read_config`). Flip to `true` when the fix is applied. -/
 def codeFixed : Bool := true
 
-/-- what the file system shows at the path at the moment of one poll -/
+/-- what the file system shows at the path at the moment of one poll. It is what the path RESOLVES
+to: `fs::metadata` and `read_to_string` follow symbolic links (final component and directory
+components alike), so an edit of a link's target and the re-pointing of a link are both edits of
+this view; the link's own timestamp plays no role. -/
 inductive FileView (Text : Type) where
   | missing                                  -- `fs::metadata` fails
   | unreadable (m : Mtime)                   -- metadata works, `read_to_string` fails (directory, EACCES, not UTF-8)
